@@ -13,7 +13,7 @@ EXPLANATION = (
     "length-prefixed compressed points (public value, M, Z, t2, t3) under the same label, the composites absorb "
     "the seed (from public value and context string), the index and both points of every pair; (R3) the proof "
     "nonce is one fresh OS-generator draw per new_batch call and the response is nonce - challenge * key; (R4) "
-    "the public value is base key + per-tag key looked up by the tag, a missing tag gives an error.  NOT decided: "
+    "the public value is base key + per-tag key looked up by the tag, a missing tag gives an error.  (R5) the size guards in front of the public-key and proof decoders admit the largest honest encoding (point + count + 256 x (tag, point) = 8488 bytes; two scalars = 64 bytes); (R6, feature key-sync) import replaces the whole key state unconditionally with the imported values (C11.R4), so a synced server never proves over a key its public key does not commit to.  NOT decided: "
     "completeness and soundness of the DLEQ proof system (algebra, random-oracle argument).")
 ASSUMPTIONS = ["Strobe-based hash_to_scalar is a random oracle; curve arithmetic is correct"]
 TRUSTED = []
@@ -200,3 +200,43 @@ def run(ctx):
     okh = any(t.op == "map_has" and rel == "eq" and v == 1 for t, rel, v in fs)
     ctx.add("C13.R4", root + "#missing-tag-is-error", okh, "Ok requires the tag to be present in the public key map", at)
     ctx.floor("C13.R4", 2)
+
+    # ---- R5 restoring an honest public key / proof is never refused for its size --------------------------------------
+    from .c15 import const_value
+    from .. import lin
+    from ..terms import mk
+    cpl = const_value(ctx, P + "COMPRESSED_POINT_LEN")
+    F = ctx.F()
+    pkf = [f[1] for f in F.adt(PK)["variants"][0]["fields"]]
+    prf = [f[1] for f in F.adt(P + "ProofDLEQ")["variants"][0]["fields"]]
+    sizes = {}
+    if pkf == ["ppoprf::Point", "std::collections::BTreeMap<u8, ppoprf::Point>"] and cpl:
+        sizes[P + "ServerPublicKey::load_from_bincode"] = cpl + 8 + 256 * (1 + cpl)     # point . u64 count . 256 x (u8 tag, point)
+    if prf == ["curve25519_dalek::Scalar", "curve25519_dalek::Scalar"]:
+        sizes[P + "ProofDLEQ::load_from_bincode"] = 64
+    ctx.add("C13.R5", "ppoprf::ppoprf#bincode-layout-known", len(sizes) == 2,
+            "ServerPublicKey must be (Point, BTreeMap<u8, Point>) and ProofDLEQ two Scalars for the size computation; found %s / %s" % (pkf, prf),
+            ctx.fn(P + "ServerPublicKey::load_from_bincode").loc)
+    for root, mx in sorted(sizes.items()):
+        eng, ret, st, fr = ctx.root(root)
+        de = [e for e in Q.calls(eng, "bincode::deserialize") if e["frame"] == fr.key]
+        ok5 = False
+        det = "no deserialize call"
+        if len(de) == 1:
+            fs = Q.closure(eng, eng.facts_at(de[0]["frame"], de[0]["block"]))
+            L = lin.Ctx()
+            for f in fs:
+                L.add_fact(f)
+            d = L.lin(mk("len", mk("param", "data"))).add(lin.Lin(mx), -1)
+            ok5 = not lin.infeasible(L.constraints() + [d, d.scale(-1)])
+            det = "largest honest encoding is %d bytes; reaches the decoder: %s" % (mx, ok5)
+        ctx.add("C13.R5", root + "#largest-honest-encoding-admitted", ok5,
+                "an honestly serialised value of maximal size (256 registered tags) must not be refused by the size guard: %s" % det,
+                de[0]["at"] if de else ctx.fn(root).loc, sample=det)
+    ctx.floor("C13.R5", 3)
+
+    # ---- R6 (feature key-sync) an imported key state replaces oprf key, public key and puncturable key together, so the
+    # proofs a synced server produces are over the key its own public key commits to -----------------------------------
+    from .c11 import export_import
+    export_import(ctx, "C13.R6")
+    ctx.floor("C13.R6", 6)
